@@ -820,26 +820,43 @@ pub enum ChildEnd {
     TimedOut,
 }
 
-pub fn wait_timeout(mut c: std::process::Child, d: Duration) -> std::io::Result<ChildEnd> {
+pub fn wait_timeout(c: std::process::Child, d: Duration) -> std::io::Result<ChildEnd> {
+    wait_capture(c, d).map(|(e, _, _)| e)
+}
+
+/// Waits for the child with a watchdog while two reader threads drain its piped stdout / stderr
+/// (a child that fills a pipe nobody reads would block for ever and be misjudged as a hang).
+pub fn wait_capture(mut c: std::process::Child, d: Duration) -> std::io::Result<(ChildEnd, String, String)> {
+    use std::io::Read;
     use std::os::unix::process::ExitStatusExt;
-    let start = std::time::Instant::now();
-    loop {
-        if let Some(st) = c.try_wait()? {
-            let mut err = String::new();
-            if let Some(mut e) = c.stderr.take() {
-                use std::io::Read;
-                let _ = e.read_to_string(&mut err);
+    fn drain<R: Read + Send + 'static>(r: Option<R>) -> std::thread::JoinHandle<String> {
+        std::thread::spawn(move || {
+            let mut buf = Vec::new();
+            if let Some(mut r) = r {
+                let _ = r.read_to_end(&mut buf);
             }
-            return Ok(match st.code() {
-                Some(code) => ChildEnd::Exited(code),
-                None => ChildEnd::Signal(st.signal().unwrap_or(-1), err),
-            });
+            String::from_utf8_lossy(&buf).into_owned()
+        })
+    }
+    let so = drain(c.stdout.take());
+    let se = drain(c.stderr.take());
+    let start = std::time::Instant::now();
+    let end = loop {
+        if let Some(st) = c.try_wait()? {
+            break st;
         }
         if start.elapsed() > d {
             let _ = c.kill();
             let _ = c.wait();
-            return Ok(ChildEnd::TimedOut);
+            // grandchildren may keep the pipes open: do not join the readers
+            return Ok((ChildEnd::TimedOut, String::new(), String::new()));
         }
         std::thread::sleep(Duration::from_millis(50));
-    }
+    };
+    let out = so.join().unwrap_or_default();
+    let err = se.join().unwrap_or_default();
+    Ok(match end.code() {
+        Some(code) => (ChildEnd::Exited(code), out, err),
+        None => (ChildEnd::Signal(end.signal().unwrap_or(-1), err.clone()), out, err),
+    })
 }
